@@ -42,6 +42,10 @@ def eSchedule : Bytes := strBytes "Error parsing schedule"
 def eActNode : Bytes := strBytes "Error, node action nodeID must be set"
 def eActType : Bytes := strBytes "Error, node action point type must be set"
 def eActUnknown : Bytes := strBytes "Uknown rule action: "
+def sPlayAudio : Bytes := strBytes "playAudio"
+/-- `os.Open` on a path that does not exist (the only kind generated; playing an existing file starts an external
+    player and is outside the model) -/
+def eOpen (path : Bytes) : Bytes := strBytes "open " ++ path ++ strBytes ": no such file or directory"
 
 structure Pt where
   type : Bytes
@@ -87,6 +91,7 @@ structure Act where
   valueText : Bytes
   active : Bool
   error : Bytes
+  filePath : Bytes := []
 deriving DecidableEq, Repr
 
 structure Rule where
@@ -234,6 +239,7 @@ def actEval (rid : Bytes) (a : Act) : Option Bytes × List Out :=
     if a.nodeID = [] then (some eActNode, [])
     else if a.pointType = [] then (some eActType, [])
     else (none, [send rid a.nodeID a.pointType a.value a.valueText a.id])
+  else if a.action = sPlayAudio then (some (eOpen a.filePath), [])   -- after the repair: an action error, not log.Fatal
   else (some (eActUnknown ++ a.action), [])
 
 def updAct (rid : Bytes) (a : Act) : Act :=
